@@ -18,6 +18,7 @@ from .builtin.expressions import Path
 from .builtin.expressions import TernaryFilteredExpression
 from .builtin.tags.case_tag import MultiExpressionBlockNode
 from .context import RenderContext
+from .exceptions import ContextDepthError
 from .span import Span
 from .token import TOKEN_TAG
 
@@ -244,8 +245,14 @@ def analyze(template: BoundTemplate, *, include_partials: bool) -> TemplateAnaly
                 _visit(child, template_name, scope, just_globals=just_globals)
             scope.pop()
 
-    for node in template.nodes:
-        _visit(node, template.name, root_scope)
+    try:
+        for node in template.nodes:
+            _visit(node, template.name, root_scope)
+    except RecursionError as err:
+        raise ContextDepthError(
+            "maximum recursion depth reached, partial templates nested too deeply",
+            token=None,
+        ) from err
 
     return TemplateAnalysis(
         variables=variables.as_dict(),
@@ -372,8 +379,14 @@ async def analyze_async(
                 await _visit(child, template_name, scope, just_globals=just_globals)
             scope.pop()
 
-    for node in template.nodes:
-        await _visit(node, template.name, root_scope)
+    try:
+        for node in template.nodes:
+            await _visit(node, template.name, root_scope)
+    except RecursionError as err:
+        raise ContextDepthError(
+            "maximum recursion depth reached, partial templates nested too deeply",
+            token=None,
+        ) from err
 
     return TemplateAnalysis(
         variables=variables.as_dict(),
